@@ -12,7 +12,7 @@
 // observed: p<u><b><d> (scale strictness as in C07; d = 1 when node.Decode returns an error for
 //   the header byte 0x01) followed by one group per S:
 //   S T <tree|nil> C <n> <tree>*n ME <entries> MC <n> (<root> <entries>)*n R <root>
-//     W <ok|err> DB <n> (<key> <value>)*n L <load> G <n> (<key> <truth> <db>)*n
+//     W <ok|err> MA <entries of the in-memory trie after the write> DB <n> (<key> <value>)*n L <load> G <n> (<key> <truth> <db>)*n
 //   <tree>    ::= N <nibbles> <value|none> <mbh> <dirty> <0|16> <child>*   <child> ::= _ | <tree>
 //                 (a node whose IsHashedValue is set is dumped with mbh = 2)
 //   <entries> ::= E <n> (<key> <value>)*n        sorted by key
@@ -206,7 +206,7 @@ func c04probes(m map[string][]byte) [][]byte {
 	seen := map[string]bool{}
 	var out [][]byte
 	add := func(k []byte) {
-		if !seen[string(k)] && len(out) < 60 {
+		if !seen[string(k)] && len(out) < 80 {
 			seen[string(k)] = true
 			out = append(out, append([]byte{}, k...))
 		}
@@ -219,6 +219,16 @@ func c04probes(m map[string][]byte) [][]byte {
 	add([]byte{})
 	for _, ks := range keys {
 		add([]byte(ks))
+	}
+	// absent keys that leave a present key inside a branch partial key and re-join its path further
+	// down: nibbles [0,j) ++ [e,len) of a present key, e-j even
+	for n, ks := range keys {
+		if n >= 4 {
+			break
+		}
+		for _, k := range c04splices([]byte(ks), 10) {
+			add(k)
+		}
 	}
 	for _, ks := range keys {
 		k := []byte(ks)
@@ -239,6 +249,33 @@ func c04probes(m map[string][]byte) [][]byte {
 					add(c[:len(c)-1])
 				}
 			}
+		}
+	}
+	return out
+}
+
+// c04splices returns up to max keys made of the nibbles [0,j) ++ [e,len) of k with e-j even.
+func c04splices(k []byte, max int) [][]byte {
+	nib := make([]byte, 0, 2*len(k))
+	for _, b := range k {
+		nib = append(nib, b>>4, b&15)
+	}
+	if len(nib) > 24 {
+		nib = nib[len(nib)-24:] // long keys: splice near the end, keep an even offset
+	}
+	pre := k[:len(k)-len(nib)/2]
+	var out [][]byte
+	for e := 2; e < len(nib) && len(out) < max; e++ {
+		for j := e - 2; j >= 0 && len(out) < max; j -= 2 {
+			if nib[j] == nib[e] {
+				continue
+			}
+			sp := append(append([]byte{}, nib[:j]...), nib[e:]...)
+			b := append([]byte{}, pre...)
+			for i := 0; i+1 < len(sp); i += 2 {
+				b = append(b, sp[i]<<4|sp[i+1])
+			}
+			out = append(out, b)
 		}
 	}
 	return out
@@ -300,6 +337,9 @@ func c04Run(in string) string {
 			} else {
 				sb.WriteString(" W ok")
 			}
+			// persisting must not change the in-memory state
+			sb.WriteString(" MA")
+			c04entries(&sb, t.Entries())
 			// dump the table
 			it, err := table.NewIterator()
 			if err != nil {
@@ -390,6 +430,25 @@ func c04Gen(r *vu.RNG, n int, emit func(string)) {
 		ckeys := [][]byte{{0x63}, {0x63, 0x64}}
 		blocks := 1 + r.Intn(4)
 		withChild := r.Chance(1, 4)
+		if r.Chance(1, 6) {
+			// a key with a hashed value, then (same or next block) a key extending it by 16..40 bytes:
+			// the node of the first key becomes a branch whose partial key is a sub-slice of the second
+			k1 := c04key(r)
+			k2 := append(append([]byte{}, k1...), r.Bytes(16+r.Intn(25))...)
+			ops = append(ops, "P:"+vu.Hex(k1)+":"+vu.Hex(r.Bytes(33+r.Intn(20))))
+			if r.Chance(1, 2) {
+				ops = append(ops, "S")
+			}
+			v2 := r.Bytes(1 + r.Intn(4))
+			if r.Chance(1, 2) {
+				v2 = r.Bytes(30 + r.Intn(20))
+			}
+			ops = append(ops, "P:"+vu.Hex(k2)+":"+vu.Hex(v2))
+			keys = append(keys, k1, k2)
+			if r.Chance(1, 2) {
+				ops = append(ops, "S")
+			}
+		}
 		for b := 0; b < blocks; b++ {
 			nops := 1 + r.Intn(6)
 			if b == 0 {
